@@ -1462,17 +1462,29 @@ func (w *vrWorld) resolveOnChain() {
 	w.em.Count(fmt.Sprintf("resolve-on-chain:resolved=%d", n))
 }
 
-// rejectUnconfirmed: RejectContracts at a height far above every negotiation height (not a model
-// step: the model has no chain status).
+// rejectUnconfirmed: RejectContracts at a height far above every negotiation height.  Recorded as the
+// model's [Reject ids] with the ids the store reports as rejected (WP-Y: since /repo 7f58b1d the manager's v2
+// path reads the rejected status, so it is part of the model's database).
 func (w *vrWorld) rejectUnconfirmed() bool {
+	var v1, v2 []types.FileContractID
 	_, err, pan := vrCall(func() error {
 		return w.store.UpdateChainState(func(tx index.UpdateTx) error {
-			_, _, err := tx.RejectContracts(1 << 40)
+			var err error
+			v1, v2, err = tx.RejectContracts(1 << 40)
 			return err
 		})
 	})
-	w.em.Count(fmt.Sprintf("reject-unconfirmed:ok=%v", err == nil && pan == nil))
-	return err == nil && pan == nil
+	ok := err == nil && pan == nil
+	w.em.Count(fmt.Sprintf("reject-unconfirmed:ok=%v", ok))
+	if ok {
+		var ids []string
+		for _, id := range append(append([]types.FileContractID(nil), v1...), v2...) {
+			ids = append(ids, fmt.Sprint(w.cN(id)))
+		}
+		sort.Strings(ids)
+		w.step("Reject ["+strings.Join(ids, "; ")+"]", "ORes (Ok tt)")
+	}
+	return ok
 }
 
 func proto4Usage() proto4.Usage { return proto4.Usage{} }
